@@ -2,7 +2,7 @@
    One theorem per reference operator: the set denoted by the reference result is the documented set.
    [fresh n s]: the system does not mention coordinate n (n = space dimension: used as scratch). *)
 From Coq Require Import List ZArith QArith.
-Require Import PPLV.Base.FM PPLV.Base.Sys PPLV.Base.Gens PPLV.Poly.PolyOps.
+Require Import PPLV.Base.FM PPLV.Base.Sys PPLV.Base.Gens PPLV.Poly.PolyOps PPLV.Poly.GensLeast.
 Import ListNotations.
 Local Open Scope Q_scope.
 
@@ -87,12 +87,32 @@ Proof. exact relax_least. Qed.
 Theorem C02_generator_side_conversion_exact : forall n G p, sat_sys (cons_of_gens n G) p <-> in_gens n G p.
 Proof. exact cons_of_gens_exact. Qed.
 
-(* FULL statement not yet proved (kept visible): the generator union is the LEAST polyhedron containing both *)
-Definition C02_poly_hull_least_full : Prop :=
-  forall n G1 G2 (t : sys),
-    (exists p, in_gens n G1 p) -> (exists p, in_gens n G2 p) ->
-    (forall p, in_gens n G1 p -> sat_sys t p) -> (forall p, in_gens n G2 p -> sat_sys t p) ->
-    forall p, in_gens n (G1 ++ G2) p -> sat_sys t p.
+(* poly-hull / add_generator(s): the union of the generator systems generates a set that contains both
+   arguments and is contained in EVERY polyhedron (set defined by equalities, strict and non-strict
+   inequalities) containing both: the smallest polyhedron of the topology containing the union *)
+Theorem C02_poly_hull_contains_left : forall n G1 G2 p, in_gens n G1 p -> in_gens n (G1 ++ G2) p.
+Proof. exact hull_upper_left. Qed.
+Theorem C02_poly_hull_contains_right : forall n G1 G2 p, in_gens n G2 p -> in_gens n (G1 ++ G2) p.
+Proof. exact hull_upper_right. Qed.
+Theorem C02_poly_hull_least : forall n G1 G2 (t : sys),
+  wf_gens G1 -> wf_gens G2 -> wf_sys_dim n t ->
+  (forall g, In g G1 -> (length (gcoefs g) <= n)%nat) -> (forall g, In g G2 -> (length (gcoefs g) <= n)%nat) ->
+  (exists p, in_gens n G1 p) -> (exists p, in_gens n G2 p) ->
+  (forall p, in_gens n G1 p -> sat_sys t p) -> (forall p, in_gens n G2 p -> sat_sys t p) ->
+  forall p, in_gens n (G1 ++ G2) p -> sat_sys t p.
+Proof. exact hull_least. Qed.
+
+(* the constraints valid on a generated set are exactly those valid generator by generator
+   (strictly on points, weakly on closure points, homogeneously on rays, with equality on lines) *)
+Theorem C02_valid_constraints_of_generated_set : forall n c G,
+  wf_gens G -> (length (coefs c) <= n)%nat -> (forall g, In g G -> (length (gcoefs g) <= n)%nat) ->
+  (exists p0, in_gens n G p0) ->
+  ((forall p, in_gens n G p -> sat c p) <-> (forall g, In g G -> gen_ok c g)).
+Proof.
+  intros n c G W L LG NE. split.
+  - intros H. exact (gens_valid_complete n c G W L LG NE H).
+  - intros H. exact (gens_valid_sound n c G W L H).
+Qed.
 
 Example C02_nonvacuous :
   let s := sys_of_cons [ {| ccoefs := [1%Z; 0%Z]; ccst := 0%Z; ckd := GE |}; {| ccoefs := [(-1)%Z; (-1)%Z]; ccst := 3%Z; ckd := GE |} ] in
